@@ -44,6 +44,9 @@ Definition fs_ok (r : res (list (str * str))) (code : Z) (obs : list (str * str)
              && forallb (fun nb => existsb (fun ob => Zl_eqb (fst nb) (fst ob) && Zl_eqb (snd nb) (snd ob)) obs) fs
   end.
 Definition sid (s : str) : str := s.
+(* histories of events on a file system: exception class of the history and the files (names and bytes) after EVERY event *)
+Definition trace_ok (r : list fsys * Z) (code : Z) (obs : list fsys) : bool :=
+  (snd r =? code) && all2 fs_eqb (fst r) obs.
 Definition log_ok (r : res lstate) (code : Z) (niter : Z) (obs : str) : bool :=
   match r with Err e => exn_code e =? code | Ok st => (code =? 0) && (l_iter st =? niter) && Zl_eqb (log_file st) obs end.
 (* reading the log back inside Coq (single-character separator): row k starts with k and has as many columns as row 0 *)
@@ -349,52 +352,200 @@ def expected_bytes(dom, vectors, parsed):
     return out
 
 
-# ----------------------------------------------------------------------------- WriteToVTI histories
-def run_wvti(ctx, pym, sc, spec, checks, labels, oracle_jobs):
-    nx, ny, nz = spec['domain']
-    unit = spec.get('unit', [1.0, 1.0, 1.0])
-    scale = spec.get('scale', 1.0)
-    dom = pym.DomainDefinition(nx, ny, nz, *unit)
-    wd = sc.fresh()
-    sigs = [pym.Signal(t) for t in spec['tags']]
-    kw = dict(domain=dom, saveto=spec['saveto'])
-    if 'overwrite' in spec:
-        kw['overwrite'] = spec['overwrite']
-    if 'scale' in spec:
-        kw['scale'] = spec['scale']
-    err = None
-    calls = []
+# ----------------------------------------------------------------------------- histories on a file system
+def content_bytes(c):
+    """content of a pre-existing / externally written file in a spec: text, or {'rep': 'x', 'n': 20000}"""
+    if isinstance(c, dict):
+        return c['rep'].encode() * c['n']
+    return c.encode()
+
+
+class Contents:
+    """every distinct byte string of a case becomes ONE Coq let-binding; snapshots refer to the names"""
+    def __init__(self):
+        self.vars, self.defs = {}, []
+
+    def var(self, data):
+        if data not in self.vars:
+            name = f'c{len(self.vars)}'
+            if len(data) > 64 and len(set(data)) == 1:
+                lit = f'(repeat {data[0]} (Z.to_nat {len(data)}))'
+            else:
+                lit = sl(data)
+            self.vars[data] = name
+            self.defs.append(f'let {name} : str := {lit} in')
+        return self.vars[data]
+
+    def fs(self, files):
+        return '[' + '; '.join(f'({sl(n_)}, {self.var(b)})' for n_, b in sorted(files.items())) + ']'
+
+    def wrap(self, expr):
+        return '(' + ' '.join(self.defs) + ' ' + expr + ')'
+
+
+def world_of(spec, module_keys):
+    """(pre, modules, events) of a history spec.  Old format (one module, fresh directory, `iterations`) is the history
+    [new 0; call 0 ..]; the new format has spec['world'] = dict(modules=[..], events=[..]) and optionally spec['pre'] =
+    dict(files=[[path, content]], dirs=[path]).  Events: ['new', module index] (instances are numbered in order of
+    creation), ['call', instance, values], ['write', path, content], ['remove', path]."""
+    pre = spec.get('pre', {})
+    if 'world' in spec:
+        return pre, spec['world']['modules'], spec['world']['events']
+    mod = {k: spec[k] for k in module_keys if k in spec}
+    return pre, [mod], [['new', 0]] + [['call', 0, it] for it in spec['iterations']]
+
+
+def setup_pre(pre):
+    for d in pre.get('dirs', []):
+        os.makedirs(d, exist_ok=True)
+    for path, c in pre.get('files', []):
+        if os.path.dirname(path):
+            os.makedirs(os.path.dirname(path), exist_ok=True)
+        with open(path, 'wb') as f:
+            f.write(content_bytes(c))
+
+
+def env_event(ev):
+    """changes made by the environment between the calls (not by pymoto)"""
+    if ev[0] == 'write':
+        if os.path.dirname(ev[1]):
+            os.makedirs(os.path.dirname(ev[1]), exist_ok=True)
+        with open(ev[1], 'wb') as f:
+            f.write(content_bytes(ev[2]))
+    else:
+        os.remove(ev[1])
+
+
+def run_world(wd, pre, events, new_instance, call_instance):
+    """executes a history in the scratch directory `wd`.  Returns the files before, the files after every event (after
+    the failing one too), the exception, and per event what happened."""
+    setup_pre(pre)
+    before = listdir_rec(wd)
+    snaps, err, done = [], None, []
+    insts = []
     with warnings.catch_warnings():
         warnings.simplefilter('ignore')
-        try:
-            m = pym.WriteToVTI(sigs, **kw)
-            for it in spec['iterations']:
-                arrs = [build_array(v) for v in it]
-                for s, a in zip(sigs, arrs):
-                    s.state = a
-                calls.append(arrs)
-                m.response()
-        except Exception as e:  # noqa
-            err = e
-    files = listdir_rec(wd)
+        for ev in events:
+            try:
+                if ev[0] == 'new':
+                    insts.append(new_instance(ev[1]))
+                elif ev[0] == 'call':
+                    call_instance(insts[ev[1]], ev[2])
+                else:
+                    env_event(ev)
+            except Exception as e:  # noqa
+                err = e
+                snaps.append(listdir_rec(wd))
+                break
+            snaps.append(listdir_rec(wd))
+            done.append(ev)
+    return before, snaps, err, done, insts
+
+
+def pre_class(pre, targets):
+    """what the file system holds before the history, seen from the files the modules are going to write"""
+    files = dict((p_, content_bytes(c)) for p_, c in pre.get('files', []))
+    out = set()
+    for t in targets:
+        if t in files:
+            b = files[t]
+            out.add('target-exists:' + ('empty' if not b else 'no-final-newline' if not b.endswith(b'\n') else 'lines'))
+            out.add('target-exists:' + ('long' if len(b) > 2000 else 'short'))
+        elif os.path.dirname(t) and (os.path.dirname(t) in pre.get('dirs', []) or any(
+                os.path.dirname(p_) == os.path.dirname(t) for p_ in files)):
+            out.add('directory-exists')
+        elif os.path.dirname(t):
+            out.add('directory-missing')
+    if files and not out & {'target-exists:long', 'target-exists:short'}:
+        out.add('other-files')
+    return sorted(out) or ['fresh']
+
+
+# ----------------------------------------------------------------------------- WriteToVTI histories
+WVTI_KEYS = ('domain', 'unit', 'scale', 'tags', 'saveto', 'overwrite')
+
+
+def wvti_target(mod, it):
+    """the file a response has to write (the statement of the property: one file per iteration, one in overwrite mode)"""
+    base, ext = os.path.splitext(mod['saveto'])
+    fn = mod['saveto'] if mod.get('overwrite', False) else f'{base}.{it:04d}{ext}'
+    return fn if '.vti' in os.path.splitext(fn)[1].lower() else fn + '.vti'
+
+
+def run_wvti(ctx, pym, sc, spec, checks, labels, oracle_jobs):
+    pre, mods, events = world_of(spec, WVTI_KEYS)
+    wd = sc.fresh()
+    doms = [pym.DomainDefinition(*m['domain'], *m.get('unit', [1.0, 1.0, 1.0])) for m in mods]
+
+    def new_instance(mi):
+        m = mods[mi]
+        sigs = [pym.Signal(t) for t in m['tags']]
+        kw = dict(domain=doms[mi], saveto=m['saveto'])
+        if 'overwrite' in m:
+            kw['overwrite'] = m['overwrite']
+        if 'scale' in m:
+            kw['scale'] = m['scale']
+        return dict(mi=mi, sigs=sigs, calls=[], module=pym.WriteToVTI(sigs, **kw))
+
+    def call_instance(inst, values):
+        arrs = [build_array(v) for v in values]
+        for s_, a in zip(inst['sigs'], arrs):
+            s_.state = a
+        inst['calls'].append(arrs)
+        inst['module'].response()
+
+    before, snaps, err, done, insts = run_world(wd, pre, events, new_instance, call_instance)
     code = exn_code(err)
-    g = f'(G {nx} {ny} {nz})'
-    org_s, spc_s, _, _ = geom_strings(unit, scale, None)
-    calls_lit = '[' + '; '.join('[' + '; '.join(vec_lit(t, a) for t, a in zip(spec['tags'], arrs)) + ']' for arrs in calls) + ']'
-    obs = '[' + '; '.join(f'({sl(n_)}, {sl(b)})' for n_, b in sorted(files.items())) + ']'
-    overwrite = bool(spec.get('overwrite', False))
-    run = (f'wvti_run {g} {sl(spec["saveto"])} {blit(overwrite)} {"[" + ";".join(map(sl, org_s)) + "]"} '
-           f'{"[" + ";".join(map(sl, spc_s)) + "]"} 0 {calls_lit} []')
-    expr = f'fs_ok ({run}) {code} {obs}' if code == 0 else f'fs_ok ({run}) {code} []'
-    checks.append('(' + expr + ')')
-    labels.append(dict(kind='wvti', spec=spec, parts=['files'], sub=['(' + expr + ')'], observed_files=sorted(files)))
-    ctx.case(('wvti', tuple(spec['domain']), spec['saveto'], overwrite, scale, len(calls), tuple(spec['tags']), code, spec.get('tag')),
-             len(files) >= 1, sample=dict(kind='WriteToVTI', domain=spec['domain'], saveto=spec['saveto'], overwrite=overwrite,
-                                          iterations=len(calls), files=sorted(files), exception=code))
-    ctx.count(f'wvti:iterations{len(spec["iterations"])}')
-    ctx.count(f'wvti:overwrite{int(overwrite)}')
+    ct = Contents()
+    insts_mi = [ev[1] for ev in events if ev[0] == 'new']
+    evs = []
+    for ev in events[:len(done) + (1 if err is not None else 0)]:
+        if ev[0] == 'new':
+            m = mods[ev[1]]
+            org_s, spc_s, _, _ = geom_strings(m.get('unit', [1.0, 1.0, 1.0]), m.get('scale', 1.0), None)
+            nx, ny, nz = m['domain']
+            evs.append(f'VNew (G {nx} {ny} {nz}) {sl(m["saveto"])} {blit(bool(m.get("overwrite", False)))} '
+                       f'{"[" + ";".join(map(sl, org_s)) + "]"} {"[" + ";".join(map(sl, spc_s)) + "]"}')
+        elif ev[0] == 'call':
+            m = mods[insts_mi[ev[1]]]
+            arrs = [build_array(v) for v in ev[2]]
+            evs.append(f'VCall {ev[1]} [' + '; '.join(vec_lit(t, a) for t, a in zip(m['tags'], arrs)) + ']')
+        elif ev[0] == 'write':
+            evs.append(f'VWrite {sl(ev[1])} {ct.var(content_bytes(ev[2]))}')
+        else:
+            evs.append(f'VRemove {sl(ev[1])}')
+    # an exception inside write_to_vti leaves a partial file behind: the files after a failing event are not compared
+    obs = snaps[:len(done)]
+    expr = f'trace_ok (wvti_trace ({ct.fs(before)}, []) [{"; ".join(evs)}]) {code} [{"; ".join(ct.fs(f) for f in obs)}]'
+    expr = ct.wrap(expr)
+    checks.append(expr)
+    labels.append(dict(kind='wvti', spec=spec, parts=['files after every event'], sub=[expr],
+                       observed_files=sorted(snaps[-1]) if snaps else []))
+    targets = set()
+    for m in mods:
+        for it in range(8):
+            targets.add(wvti_target(m, it))
+    pcs = pre_class(pre, targets)
+    ncall = sum(1 for e in done if e[0] == 'call')
+    final = snaps[-1] if snaps else before
+    ctx.case(('wvti', tuple((tuple(m['domain']), m['saveto'], bool(m.get('overwrite', False)), m.get('scale', 1.0), tuple(m['tags']))
+                            for m in mods), tuple(e[0] if e[0] != 'call' else ('call', e[1]) for e in events), tuple(pcs), code,
+              spec.get('tag')),
+             len(final) >= 1 and ncall >= 1,
+             sample=dict(kind='WriteToVTI', modules=[dict(domain=m['domain'], saveto=m['saveto'], overwrite=bool(m.get('overwrite', False)))
+                                                     for m in mods], before=sorted(before),
+                         events=[e[0] if e[0] != 'call' else f'call {e[1]}' for e in events], files=sorted(final), exception=code))
+    ctx.count(f'wvti:calls{ncall}')
+    for m in mods:
+        ctx.count(f'wvti:overwrite{int(bool(m.get("overwrite", False)))}')
+    ctx.count(f'wvti:instances{len(mods) if "world" not in spec else sum(1 for e in events if e[0] == "new")}')
+    for pc in pcs:
+        ctx.count(f'wvti:before:{pc}')
+    for e in events:
+        if e[0] in ('write', 'remove'):
+            ctx.count(f'wvti:environment:{e[0]}')
     ctx.count(f'wvti:exception:{type(err).__name__ if err else "none"}')
-    oracle_jobs.append(('wvti', spec, dom, calls, files, err))
+    oracle_jobs.append(('wvti', spec, mods, doms, before, snaps, err, done, insts))
 
 
 # ----------------------------------------------------------------------------- ScalarToFile histories
@@ -426,66 +577,137 @@ def logval_lit(obj, fmt):
     return f'(LNum {sl(obj.__format__(fmt))})'
 
 
+LOG_KEYS = ('tags', 'saveto', 'fmt', 'separator')
+
+
+def clean_runs(mods, insts_mi, events, nsucc, err):
+    """per module instance: the calls from its first one up to the first interference with its file (a call of another
+    instance with the same path, a write / removal by the environment), as (instance, [event index ..], failed?):
+    for these the file has to be header + one row per call whatever it held before"""
+    runs = {}
+    dirty = set()
+    for i, ev in enumerate(events[:nsucc + (1 if err is not None else 0)]):
+        failed = err is not None and i == nsucc
+        if ev[0] == 'call':
+            k = ev[1]
+            path = mods[insts_mi[k]]['saveto']
+            for j in runs:
+                if j != k and mods[insts_mi[j]]['saveto'] == path:
+                    dirty.add(j)
+            if k not in dirty:
+                runs.setdefault(k, []).append((i, failed))
+        elif ev[0] in ('write', 'remove') and not failed:
+            for j in runs:
+                if mods[insts_mi[j]]['saveto'] == ev[1]:
+                    dirty.add(j)
+    return runs
+
+
 def run_log(ctx, pym, sc, spec, checks, labels, oracle_jobs):
+    pre, mods, events = world_of(spec, LOG_KEYS)
     wd = sc.fresh()
-    sigs = [pym.Signal(t) for t in spec['tags']]
-    kw = dict(saveto=spec['saveto'])
-    if 'fmt' in spec:
-        kw['fmt'] = spec['fmt']
-    if 'separator' in spec:
-        kw['separator'] = spec['separator']
-    fmt = spec.get('fmt', '.10e')
-    sep = spec.get('separator', '\t')
-    err = None
-    calls = []
-    with warnings.catch_warnings():
-        warnings.simplefilter('ignore')
-        try:
-            m = pym.ScalarToFile(sigs, **kw)
-            for it in spec['iterations']:
-                objs = [build_logval(v) for v in it]
-                for s, o in zip(sigs, objs):
-                    s.state = o
-                calls.append(objs)
-                m.response()
-        except Exception as e:  # noqa
-            err = e
-    files = listdir_rec(wd)
+
+    def new_instance(mi):
+        m = mods[mi]
+        sigs = [pym.Signal(t) for t in m['tags']]
+        kw = dict(saveto=m['saveto'])
+        if 'fmt' in m:
+            kw['fmt'] = m['fmt']
+        if 'separator' in m:
+            kw['separator'] = m['separator']
+        return dict(mi=mi, sigs=sigs, module=pym.ScalarToFile(sigs, **kw))
+
+    def call_instance(inst, values):
+        objs = [build_logval(v) for v in values]
+        for s_, o in zip(inst['sigs'], objs):
+            s_.state = o
+        inst['module'].response()
+
+    before, snaps, err, done, insts = run_world(wd, pre, events, new_instance, call_instance)
     code = exn_code(err)
-    calls_lit = '[' + '; '.join('[' + '; '.join(f'({sl(t)}, {logval_lit(o, fmt)})' for t, o in zip(spec['tags'], objs)) + ']'
-                                for objs in calls) + ']'
-    run = f'log_run str sid (separator {sl(spec["saveto"])} {sl(sep)}) l_init {calls_lit}'
+    nsucc = len(done)
+    ct = Contents()
+    # instance number -> module index, for every 'new' of the history (also the failing one)
+    insts_mi = [ev[1] for ev in events if ev[0] == 'new']
+    evs, objs_of = [], {}
+    for i, ev in enumerate(events[:nsucc + (1 if err is not None else 0)]):
+        if ev[0] == 'new':
+            m = mods[ev[1]]
+            evs.append(f'LNew {sl(m["saveto"])} {sl(m.get("separator", chr(9)))}')
+        elif ev[0] == 'call':
+            m = mods[insts_mi[ev[1]]]
+            objs = [build_logval(v) for v in ev[2]]
+            objs_of[i] = objs
+            evs.append(f'LCall {ev[1]} [' + '; '.join(f'({sl(t)}, {logval_lit(o, m.get("fmt", ".10e"))})' for t, o in zip(m['tags'], objs)) + ']')
+        elif ev[0] == 'write':
+            evs.append(f'LWrite {sl(ev[1])} {ct.var(content_bytes(ev[2]))}')
+        else:
+            evs.append(f'LRemove {sl(ev[1])}')
     parts = {}
-    data = None
-    if code == 0:
-        if list(files) != [spec['saveto']]:
-            raise RuntimeError(f'unexpected files {list(files)} for {spec["saveto"]}')
-        data = files[spec['saveto']]
-        parts['file'] = f'log_ok ({run}) 0 {len(calls)} {sl(data)}'
-        effsep = ',' if '.csv' in spec['saveto'] else sep
-        width = re.match(r'[+]?\d', fmt) is not None
-        if len(effsep) == 1 and calls and not (width and effsep == ' '):
-            ncols = 1 + sum((o.size if isinstance(o, np.ndarray) and o.ndim >= 1 else 1) for o in calls[0])
-            hdr_free = not any(effsep in t for t in spec['tags']) and not (
-                effsep in ', ' and any(isinstance(o, np.ndarray) and o.ndim >= 2 for o in calls[0]))
-            parts['rows'] = f'rows_ok {ord(effsep)} {sl(data)} {len(calls)} {ncols} {blit(hdr_free)}'
-    else:
-        parts['file'] = f'log_ok ({run}) {code} 0 []'
+    parts['files after every event'] = (f'trace_ok (log_trace str sid ({ct.fs(before)}, []) [{"; ".join(evs)}]) {code} '
+                                        f'[{"; ".join(ct.fs(f) for f in snaps)}]')
+    # every instance on its own: from its first call on, as long as nobody else touches its file, the file is the text of
+    # the line-list model (C20_log_file_is_line_model: for ANY content before)
+    runs = clean_runs(mods, insts_mi, events, nsucc, err)
+    jobs = []
+    for k, idxs in sorted(runs.items()):
+        m = mods[insts_mi[k]]
+        fmt, sep = m.get('fmt', '.10e'), m.get('separator', '\t')
+        calls = [objs_of[i] for i, _ in idxs]
+        failed = idxs[-1][1]
+        calls_lit = '[' + '; '.join('[' + '; '.join(f'({sl(t)}, {logval_lit(o, fmt)})' for t, o in zip(m['tags'], objs)) + ']'
+                                    for objs in calls) + ']'
+        run = f'log_run str sid (separator {sl(m["saveto"])} {sl(sep)}) l_init {calls_lit}'
+        if failed:
+            parts[f'file of instance {k}'] = f'log_ok ({run}) {code} 0 []'
+            good = calls[:-1]
+            data = snaps[idxs[-2][0]].get(m['saveto']) if len(idxs) >= 2 else None
+        else:
+            data = snaps[idxs[-1][0]].get(m['saveto'])
+            if data is None:
+                raise RuntimeError(f'no file {m["saveto"]} after a response; files {sorted(snaps[idxs[-1][0]])}')
+            parts[f'file of instance {k}'] = f'log_ok ({run}) 0 {len(calls)} {ct.var(data)}'
+            good = calls
+        if data is not None and good:
+            effsep = ',' if '.csv' in m['saveto'] else sep
+            width = re.match(r'[+]?\d', fmt) is not None
+            if len(effsep) == 1 and not (width and effsep == ' '):
+                ncols = 1 + sum((o.size if isinstance(o, np.ndarray) and o.ndim >= 1 else 1) for o in good[0])
+                hdr_free = not any(effsep in t for t in m['tags']) and not (
+                    effsep in ', ' and any(isinstance(o, np.ndarray) and o.ndim >= 2 for o in good[0]))
+                parts[f'rows of instance {k}'] = f'rows_ok {ord(effsep)} {ct.var(data)} {len(good)} {ncols} {blit(hdr_free)}'
+            jobs.append((k, m, good, data, fmt, sep))
     keys = list(parts)
-    checks.append(f'(andl [{"; ".join(parts[k] for k in keys)}])')
-    labels.append(dict(kind='log', spec=spec, parts=keys, sub=[f'({parts[k]})' for k in keys]))
-    shapes = tuple(tuple(o.shape) if isinstance(o, np.ndarray) else () for o in (calls[0] if calls else []))
-    ctx.case(('log', spec['saveto'], fmt, sep, len(calls), shapes, code, spec.get('tag')), code == 0 and len(calls) >= 1,
-             sample=dict(kind='ScalarToFile', saveto=spec['saveto'], fmt=fmt, separator=sep, iterations=len(calls),
-                         text=None if data is None else data.decode()[:200], exception=code))
-    ctx.count(f'log:fmt:{fmt}')
-    ctx.count(f'log:sep:{sep!r}')
-    ctx.count(f'log:iterations{len(spec["iterations"])}')
+    checks.append(ct.wrap(f'andl [{"; ".join(parts[k] for k in keys)}]'))
+    labels.append(dict(kind='log', spec=spec, parts=keys, sub=[ct.wrap(parts[k]) for k in keys]))
+    pcs = pre_class(pre, set(m['saveto'] for m in mods))
+    ncall = sum(1 for e in done if e[0] == 'call')
+    first = next((objs_of[i] for i in sorted(objs_of)), [])
+    shapes = tuple(tuple(o.shape) if isinstance(o, np.ndarray) else () for o in first)
+    final = snaps[-1] if snaps else before
+    m0 = mods[0]
+    ctx.case(('log', tuple((m['saveto'], m.get('fmt', '.10e'), m.get('separator', '\t'), tuple(m['tags'])) for m in mods),
+              tuple(e[0] if e[0] != 'call' else ('call', e[1]) for e in events), tuple(pcs), shapes, code, spec.get('tag')),
+             ncall >= 1 and bool(jobs),
+             sample=dict(kind='ScalarToFile', modules=[dict(saveto=m['saveto'], fmt=m.get('fmt', '.10e'), separator=m.get('separator', '\t'))
+                                                       for m in mods], before=sorted(before),
+                         events=[e[0] if e[0] != 'call' else f'call {e[1]}' for e in events],
+                         text=None if m0['saveto'] not in final else final[m0['saveto']].decode(errors='replace')[:200], exception=code))
+    for m in mods:
+        ctx.count(f'log:fmt:{m.get("fmt", ".10e")}')
+        ctx.count(f'log:sep:{m.get("separator", chr(9))!r}')
+    ctx.count(f'log:calls{ncall}')
+    ctx.count(f'log:instances{sum(1 for e in events if e[0] == "new")}')
+    for pc in pcs:
+        ctx.count(f'log:before:{pc}')
+    for e in events:
+        if e[0] in ('write', 'remove'):
+            ctx.count(f'log:environment:{e[0]}')
     ctx.count(f'log:exception:{type(err).__name__ if err else "none"}')
-    k = 'float.__format__ / np.floating.__format__ (entries formatted by the harness, outside pymoto)'
-    ctx.oracle_validation[k] = ctx.oracle_validation.get(k, 0) + sum(
-        (o.size if isinstance(o, np.ndarray) else 1) for objs in calls for o in objs)
-    oracle_jobs.append(('log', spec, calls, files, err, fmt, sep))
+    k_ = 'float.__format__ / np.floating.__format__ (entries formatted by the harness, outside pymoto)'
+    ctx.oracle_validation[k_] = ctx.oracle_validation.get(k_, 0) + sum(
+        (o.size if isinstance(o, np.ndarray) else 1) for objs in objs_of.values() for o in objs)
+    oracle_jobs.append(('log', spec, jobs, err))
 
 
 # ----------------------------------------------------------------------------- generators
@@ -699,6 +921,263 @@ def gen_log_spec(rng):
     return spec
 
 
+# ---- the state of the file system before and between the calls -------------------------------------------------------
+def old_log_text(rng, tags, fmt, sep, rows, final_newline=True):
+    """what an earlier ScalarToFile instance would have left (written here by the harness, not by pymoto)"""
+    lines = [sep.join(['Iteration'] + tags)]
+    for k in range(rows):
+        lines.append(sep.join([str(k)] + [rng.uniform(-5, 5).__format__(fmt) for _ in tags]))
+    return '\n'.join(lines) + ('\n' if final_newline else '')
+
+
+def log_pre_contents(rng, tags, fmt, sep):
+    """contents a file can have before the first response (name -> text)"""
+    return {
+        'same-longer': old_log_text(rng, tags, fmt, sep, 9),
+        'same-shorter': old_log_text(rng, tags, fmt, sep, 1),
+        'header-only': old_log_text(rng, tags, fmt, sep, 0),
+        'other-format': old_log_text(rng, ['a', 'b[0]', 'b[1]', 'c'], '.2f', ';' if sep != ';' else '|', 6),
+        'empty': '',
+        'no-final-newline': old_log_text(rng, tags, fmt, sep, 3, final_newline=False),
+        'one-char': 'x',
+        'only-newlines': '\n\n\n',
+        'long': dict(rep='z', n=6000),
+        'xml': '<?xml version="1.0"?>\n<VTKFile type="ImageData">\n</VTKFile>',
+    }
+
+
+def log_iter(rng, protos):
+    return [gen_logval(rng, {k: v for k, v in p.items() if k in ('type', 'shape', 'layout')}) for p in protos]
+
+
+def log_stress(rng):
+    """deliberately chosen histories, run on every seed: target files that already exist (every kind of content), several
+    instances on one path (in sequence, re-created, interleaved), directories that do / do not exist, changes made by
+    the environment between the calls.  Values are drawn, the structure is fixed."""
+    out = []
+    protos = [dict(type='float'), dict(type='array', shape=[2])]
+    tags = ['f', 'g']
+    mod = dict(tags=tags, saveto='log.txt', fmt='.3e', separator='\t')
+
+    def calls(k, n, pr=protos):
+        return [['call', k, log_iter(rng, pr)] for _ in range(n)]
+    cont = log_pre_contents(rng, ['f', 'g[0]', 'g[1]'], '.3e', '\t')
+    for name, text in cont.items():
+        n = {'same-longer': 2, 'same-shorter': 4}.get(name, rng.choice([1, 2, 3]))
+        out.append(dict(kind='log', tag='stress:pre:' + name, pre=dict(files=[['log.txt', text]]),
+                        world=dict(modules=[mod], events=[['new', 0]] + calls(0, n))))
+    # neighbours whose names are close to the target; they have to survive byte for byte
+    m2 = dict(mod, saveto='out/log.txt', fmt='g', separator=';')
+    out.append(dict(kind='log', tag='stress:pre:neighbours',
+                    pre=dict(files=[['out/log.txt', cont['same-longer']], ['out/log.txt.bak', 'keep 1\n'], ['out/log.tx', 'keep 2'],
+                                    ['out/other.txt', ''], ['log.txt', 'keep 3\n'], ['x', 'keep 4']]),
+                    world=dict(modules=[m2], events=[['new', 0]] + calls(0, 3))))
+    # directories
+    out.append(dict(kind='log', tag='stress:dir:missing', world=dict(modules=[dict(mod, saveto='new/deep/er/log.txt')], events=[['new', 0]] + calls(0, 2))))
+    out.append(dict(kind='log', tag='stress:dir:partly', pre=dict(dirs=['new'], files=[['new/log.txt', 'keep\n']]),
+                    world=dict(modules=[dict(mod, saveto='new/deep/log.txt')], events=[['new', 0]] + calls(0, 2))))
+    out.append(dict(kind='log', tag='stress:dir:exists-empty', pre=dict(dirs=['out/logs']),
+                    world=dict(modules=[dict(mod, saveto='out/logs/log.csv')], events=[['new', 0]] + calls(0, 2))))
+    out.append(dict(kind='log', tag='stress:dir:csv-in-directory-name', pre=dict(files=[['a.csv.d/log.dat', cont['other-format']]]),
+                    world=dict(modules=[dict(mod, saveto='a.csv.d/log.dat', separator='|')], events=[['new', 0]] + calls(0, 2))))
+    for sv in ('out/log.txt', 'out/sub/log.txt'):
+        out.append(dict(kind='log', tag='stress:dir:parent-is-a-file', pre=dict(files=[['out', 'a regular file\n']]),
+                        world=dict(modules=[dict(mod, saveto=sv)], events=[['new', 0]] + calls(0, 1)), **{'class': 'malformed:parent-is-a-file'}))
+    # several instances on one path
+    protos_b = [dict(type='array', shape=[2, 2]), dict(type='np.float64'), dict(type='int')]
+    modb = dict(tags=['K', 'vol', 'n'], saveto='log.txt', fmt='.5g', separator=' ; ')
+    out.append(dict(kind='log', tag='stress:two-instances:longer-then-shorter',
+                    world=dict(modules=[mod, modb], events=[['new', 0]] + calls(0, 4) + [['new', 1]] + calls(1, 2, protos_b))))
+    out.append(dict(kind='log', tag='stress:two-instances:shorter-then-longer',
+                    world=dict(modules=[mod, modb], events=[['new', 1]] + calls(0, 1, protos_b) + [['new', 0]] + calls(1, 4))))
+    out.append(dict(kind='log', tag='stress:re-created:same-module',
+                    world=dict(modules=[mod], events=[['new', 0]] + calls(0, 3) + [['new', 0]] + calls(1, 2) + [['new', 0]] + calls(2, 3))))
+    out.append(dict(kind='log', tag='stress:two-instances:created-first-called-later',
+                    world=dict(modules=[mod, modb], events=[['new', 0], ['new', 1]] + calls(1, 2, protos_b) + calls(0, 2))))
+    out.append(dict(kind='log', tag='stress:two-instances:interleaved',
+                    world=dict(modules=[mod, modb], events=[['new', 0], ['new', 1]] + calls(0, 2) + calls(1, 1, protos_b) + calls(0, 1)
+                               + calls(1, 2, protos_b) + calls(0, 1))))
+    out.append(dict(kind='log', tag='stress:two-instances:different-paths',
+                    pre=dict(files=[['a/log.txt', cont['same-longer']], ['b/log.csv', cont['other-format']]]),
+                    world=dict(modules=[dict(mod, saveto='a/log.txt'), dict(modb, saveto='b/log.csv')],
+                               events=[['new', 0], ['new', 1]] + calls(0, 1) + calls(1, 1, protos_b) + calls(0, 1) + calls(1, 1, protos_b))))
+    # the environment between the calls
+    out.append(dict(kind='log', tag='stress:environment:file-appears-before-first-call',
+                    world=dict(modules=[mod], events=[['new', 0], ['write', 'log.txt', cont['same-longer']]] + calls(0, 2))))
+    out.append(dict(kind='log', tag='stress:environment:removed-between-calls',
+                    world=dict(modules=[mod], events=[['new', 0]] + calls(0, 2) + [['remove', 'log.txt']] + calls(0, 2))))
+    out.append(dict(kind='log', tag='stress:environment:replaced-between-calls',
+                    world=dict(modules=[mod], events=[['new', 0]] + calls(0, 1) + [['write', 'log.txt', 'no newline']] + calls(0, 1)
+                               + [['write', 'other.txt', 'x\n']] + calls(0, 1))))
+    out.append(dict(kind='log', tag='stress:environment:removed-then-new-instance',
+                    pre=dict(files=[['log.txt', cont['long']]]),
+                    world=dict(modules=[mod], events=[['new', 0]] + calls(0, 1) + [['remove', 'log.txt'], ['new', 0]] + calls(1, 2))))
+    # an exception in the middle leaves the files as they were
+    bad = dict(type='array', shape=[0], values=[])
+    out.append(dict(kind='log', tag='stress:exception-mid-history', pre=dict(files=[['log.txt', cont['same-longer']]]),
+                    world=dict(modules=[mod], events=[['new', 0]] + calls(0, 2) + [['call', 0, [dict(type='float', value=1.0), bad]]]),
+                    **{'class': 'malformed:empty'}))
+    out.append(dict(kind='log', tag='stress:exception-first-call', pre=dict(files=[['log.txt', cont['same-shorter']]]),
+                    world=dict(modules=[mod], events=[['new', 0], ['call', 0, [dict(type='float', value=1.0), bad]]]),
+                    **{'class': 'malformed:empty'}))
+    return out
+
+
+def widen_log(rng, spec):
+    """random widening of a one-module history over the file system: previous content, a second instance, the environment"""
+    mod = {k: spec[k] for k in LOG_KEYS if k in spec}
+    its = spec['iterations']
+    fmt, sep = mod.get('fmt', '.10e'), mod.get('separator', '\t')
+    cont = log_pre_contents(rng, mod['tags'], fmt if fmt else 'g', sep)
+    pre = dict(files=[], dirs=[])
+    r = rng.random()
+    if r < 0.6:
+        pre['files'].append([mod['saveto'], cont[rng.choice(sorted(cont))]])
+    elif r < 0.75 and os.path.dirname(mod['saveto']):
+        pre['dirs'].append(os.path.dirname(mod['saveto']))
+    if rng.random() < 0.4:
+        pre['files'].append([mod['saveto'] + rng.choice(['.bak', '~', '.1']), 'keep\n'])
+    events = [['new', 0]]
+    mods = [mod]
+    k = 0
+    for i, it in enumerate(its):
+        if i > 0 and rng.random() < 0.3:
+            what = rng.choice(['new-same', 'new-other', 'remove', 'write'])
+            if what == 'new-same':
+                events.append(['new', 0])
+                k += 1
+            elif what == 'new-other':
+                mods.append(dict(tags=['p', 'q'], saveto=mod['saveto'], fmt=rng.choice(FMTS), separator=rng.choice(SEPS)))
+                events.append(['new', len(mods) - 1])
+                k += 1
+                events.append(['call', k, [gen_logval(rng, dict(type='float')), gen_logval(rng, dict(type='array', shape=[3]))]])
+                events.append(['new', 0])
+                k += 1
+            elif what == 'remove':
+                events.append(['remove', mod['saveto']])
+            else:
+                events.append(['write', mod['saveto'], cont[rng.choice(sorted(cont))]])
+        events.append(['call', k, it])
+    return dict(kind='log', pre=pre, world=dict(modules=mods, events=events), tag='widened')
+
+
+def old_vti_text(kind):
+    return {'garbage': 'not a vti file', 'empty': '', 'long': dict(rep='y', n=30000),
+            'xml-tail': '<?xml version="1.0"?>\n<VTKFile type="ImageData" version="0.1">\n</VTKFile>\n\n\n',
+            'one-char': '<'}[kind]
+
+
+def vti_iter(rng, dom3, tags, kinds):
+    a, b, c = dom3
+    nel, nn = a * b * max(c, 1), (a + 1) * (b + 1) * (c + 1)
+    out = []
+    for t, kd in zip(tags, kinds):
+        shape = {'cell': [nel], 'point': [nn], 'point2': [2 * nn], 'block': [3, nel], 'skip': [nel * nn + 1]}[kd]
+        out.append(dict(name=t, shape=shape, values=rand_values(rng, int(np.prod(shape)), 'dyadic')))
+    return out
+
+
+def wvti_stress(rng):
+    """deliberately chosen WriteToVTI histories, run on every seed: files of the same and of other iterations that exist
+    before (short, empty, much longer than the new file), both modes, two instances on one location (in sequence,
+    re-created, interleaved, numbered after overwrite and the reverse), directories, the environment between calls."""
+    out = []
+    dom = [3, 1, 0]
+    big = dict(domain=[2, 2, 1], tags=['u', 'rho'], saveto='dat.vti', scale=2.0)
+    small = dict(domain=dom, tags=['x'], saveto='dat.vti')
+
+    def calls(k, n, m, kinds):
+        return [['call', k, vti_iter(rng, m['domain'], m['tags'], kinds)] for _ in range(n)]
+    kb, ks = ['block', 'cell'], ['cell']
+    pre_all = [['dat.0000.vti', old_vti_text('garbage')], ['dat.0001.vti', old_vti_text('long')], ['dat.0002.vti', old_vti_text('empty')],
+               ['dat.0007.vti', 'iteration seven of an earlier run'], ['dat.vti', old_vti_text('xml-tail')], ['dat.0000', 'no extension'],
+               ['dat.0001.vti.bak', 'keep']]
+    for ow in (False, True):
+        out.append(dict(kind='wvti', tag=f'stress:pre:all-kinds:overwrite{int(ow)}', pre=dict(files=pre_all),
+                        world=dict(modules=[dict(small, overwrite=ow)], events=[['new', 0]] + calls(0, 3, small, ks))))
+    for kind in ('long', 'empty', 'one-char'):
+        out.append(dict(kind='wvti', tag='stress:pre:overwrite:' + kind, pre=dict(files=[['res.vti', old_vti_text(kind)], ['res', 'keep']]),
+                        world=dict(modules=[dict(small, saveto='res', overwrite=True, scale=0.5)], events=[['new', 0]] + calls(0, 2, small, ks))))
+    out.append(dict(kind='wvti', tag='stress:pre:no-extension', pre=dict(files=[['res.0000.vti', old_vti_text('long')], ['res.0000', 'keep'], ['res.0001', '']]),
+                    world=dict(modules=[dict(small, saveto='res')], events=[['new', 0]] + calls(0, 2, small, ks))))
+    # a call with nothing to write counts as an iteration and touches no file
+    out.append(dict(kind='wvti', tag='stress:pre:nothing-to-write', pre=dict(files=[['dat.0001.vti', 'stays'], ['dat.0002.vti', 'goes']]),
+                    world=dict(modules=[small], events=[['new', 0]] + calls(0, 1, small, ks) + calls(0, 1, small, ['skip']) + calls(0, 1, small, ks))))
+    # two instances, one location
+    out.append(dict(kind='wvti', tag='stress:two-instances:bigger-then-smaller',
+                    world=dict(modules=[big, small], events=[['new', 0]] + calls(0, 3, big, kb) + [['new', 1]] + calls(1, 2, small, ks))))
+    out.append(dict(kind='wvti', tag='stress:two-instances:smaller-then-bigger',
+                    world=dict(modules=[small, big], events=[['new', 0]] + calls(0, 2, small, ks) + [['new', 1]] + calls(1, 3, big, kb))))
+    out.append(dict(kind='wvti', tag='stress:two-instances:numbered-then-overwrite',
+                    world=dict(modules=[big, dict(small, overwrite=True)],
+                               events=[['new', 0]] + calls(0, 2, big, kb) + [['new', 1]] + calls(1, 2, small, ks) + calls(0, 1, big, kb))))
+    out.append(dict(kind='wvti', tag='stress:two-instances:overwrite-then-numbered',
+                    world=dict(modules=[dict(big, overwrite=True), small],
+                               events=[['new', 0]] + calls(0, 2, big, kb) + [['new', 1]] + calls(1, 2, small, ks))))
+    out.append(dict(kind='wvti', tag='stress:two-instances:overwrite-twice',
+                    world=dict(modules=[dict(big, overwrite=True), dict(small, overwrite=True)],
+                               events=[['new', 0], ['new', 1]] + calls(0, 1, big, kb) + calls(1, 1, small, ks) + calls(0, 1, big, kb)
+                               + calls(1, 1, small, ks))))
+    out.append(dict(kind='wvti', tag='stress:re-created:same-module',
+                    world=dict(modules=[dict(small, scale=2.0, saveto='out/dat.vti')],
+                               events=[['new', 0]] + calls(0, 3, small, ks) + [['new', 0]] + calls(1, 2, small, ks))))
+    out.append(dict(kind='wvti', tag='stress:two-instances:interleaved',
+                    world=dict(modules=[big, small], events=[['new', 0], ['new', 1]] + calls(0, 1, big, kb) + calls(1, 2, small, ks)
+                               + calls(0, 2, big, kb) + calls(1, 1, small, ks))))
+    # directories
+    out.append(dict(kind='wvti', tag='stress:dir:missing',
+                    world=dict(modules=[dict(small, saveto='a/b/c/d.vti')], events=[['new', 0]] + calls(0, 2, small, ks))))
+    out.append(dict(kind='wvti', tag='stress:dir:exists', pre=dict(dirs=['a/b/empty'], files=[['a/b/d.0001.vti', old_vti_text('long')], ['a/d.0000.vti', 'keep']]),
+                    world=dict(modules=[dict(small, saveto='a/b/d.vti')], events=[['new', 0]] + calls(0, 2, small, ks))))
+    for sv in ('out/dat.vti', 'out/sub/dat.vti'):
+        out.append(dict(kind='wvti', tag='stress:dir:parent-is-a-file', pre=dict(files=[['out', 'a regular file\n']]),
+                        world=dict(modules=[dict(small, saveto=sv)], events=[['new', 0]] + calls(0, 1, small, ks)),
+                        **{'class': 'malformed:parent-is-a-file'}))
+    # the environment between the calls
+    out.append(dict(kind='wvti', tag='stress:environment:numbered',
+                    world=dict(modules=[small], events=[['new', 0], ['write', 'dat.0000.vti', old_vti_text('long')]] + calls(0, 2, small, ks)
+                               + [['remove', 'dat.0000.vti'], ['write', 'dat.0002.vti', old_vti_text('garbage')]] + calls(0, 1, small, ks))))
+    out.append(dict(kind='wvti', tag='stress:environment:overwrite',
+                    world=dict(modules=[dict(small, overwrite=True)], events=[['new', 0]] + calls(0, 1, small, ks)
+                               + [['write', 'dat.vti', old_vti_text('long')]] + calls(0, 1, small, ks) + [['remove', 'dat.vti']]
+                               + calls(0, 1, small, ks))))
+    return out
+
+
+def widen_wvti(rng, spec):
+    """random widening of a one-module WriteToVTI history over the file system"""
+    mod = {k: spec[k] for k in WVTI_KEYS if k in spec}
+    its = spec['iterations']
+    pre = dict(files=[], dirs=[])
+    kinds = ['garbage', 'empty', 'long', 'xml-tail', 'one-char']
+    for it in rng.sample(range(0, 7), rng.choice([1, 2, 3])):
+        pre['files'].append([wvti_target(mod, it), old_vti_text(rng.choice(kinds))])
+    if rng.random() < 0.5:
+        pre['files'].append([wvti_target(dict(mod, overwrite=not mod.get('overwrite', False)), 0), old_vti_text(rng.choice(kinds))])
+    pre['files'] = [list(x) for x in dict((p_, c) for p_, c in pre['files']).items()]
+    events = [['new', 0]]
+    mods = [mod]
+    k = 0
+    for i, it in enumerate(its):
+        if i > 0 and rng.random() < 0.3:
+            what = rng.choice(['new-same', 'new-other-mode', 'remove', 'write'])
+            if what == 'new-same':
+                events.append(['new', 0])
+                k += 1
+            elif what == 'new-other-mode':
+                mods.append(dict(mod, overwrite=not mod.get('overwrite', False)))
+                events.append(['new', len(mods) - 1])
+                k += 1
+            elif what == 'remove':
+                t = wvti_target(mod, rng.randrange(0, i))
+                events.append(['write', t, old_vti_text(rng.choice(kinds))])
+                events.append(['remove', t])
+            else:
+                events.append(['write', wvti_target(mod, rng.randrange(0, 6)), old_vti_text(rng.choice(kinds))])
+        events.append(['call', k, it])
+    return dict(kind='wvti', pre=pre, world=dict(modules=mods, events=events), tag='widened')
+
+
 def gen_log_malformed(rng):
     """arrays without entries: np.nditer refuses them (ValueError); only the exception class is compared"""
     what = rng.choice(['empty', 'empty-2d'])
@@ -787,68 +1266,83 @@ def oracle(ctx, pym, jobs):
             for pred, exp, got in bad:
                 ctx.violation('impl-violates', 'DomainDefinition.write_to_vti', pred, cls.split(':')[0], case, expected=exp, got=got)
         elif kind == 'wvti':
-            _, spec, dom, calls, files, err = job
-            case = dict(spec=spec)
-            if err is not None:
-                ctx.violation('impl-violates', 'WriteToVTI._response', 'writes without raising', 'structured', case, got=repr(err)[:300])
-                continue
-            overwrite = bool(spec.get('overwrite', False))
-            n = len(calls)
-            if (overwrite and len(files) != 1) or (not overwrite and len(files) != n):
-                ctx.violation('impl-violates', 'WriteToVTI._response', 'one file per iteration (one file in overwrite mode)',
-                              'structured', case, expected=1 if overwrite else n, got=sorted(files))
-                continue
-            if not overwrite and any(f'{k:04d}' not in name for k, name in enumerate(sorted(files))):
-                ctx.violation('impl-violates', 'WriteToVTI._response', 'file names carry the iteration number', 'structured', case, got=sorted(files))
-            if any(not name.lower().endswith('.vti') and '.vti' not in os.path.splitext(name)[1].lower() for name in files):
-                ctx.violation('impl-violates', 'WriteToVTI._response', 'files are .vti files', 'structured', case, got=sorted(files))
-            for k, name in enumerate(sorted(files)):
-                arrs = calls[-1] if overwrite else calls[k]
-                vectors = {}
-                for t, a in zip(spec['tags'], arrs):
-                    vectors[t] = a
-                for pred, exp, got in oracle_vti_file(ctx, dom, vectors, files[name], spec.get('scale', 1.0), None, spec.get('unit', [1.0] * 3),
-                                                      'WriteToVTI', case):
-                    ctx.violation('impl-violates', 'WriteToVTI._response', pred, 'structured', dict(case, iteration=k, file=name), expected=exp, got=got)
-        else:
-            _, spec, calls, files, err, fmt, sep = job
+            _, spec, mods, doms, before, snaps, err, done, insts = job
             case = dict(spec=spec)
             cls = spec.get('class', 'structured')
-            if err is not None:
-                if not cls.startswith('malformed'):
-                    ctx.violation('impl-violates', 'ScalarToFile._response', 'logs without raising', cls, case, got=repr(err)[:300])
-                continue
-            text = files[spec['saveto']].decode()
-            effsep = ',' if '.csv' in spec['saveto'] else sep
-            lines = text.split('\n')
-            if lines[-1] != '' or len(lines) != len(calls) + 2:
-                ctx.violation('impl-violates', 'ScalarToFile._response', 'one header line and one row per call', cls, case,
-                              expected=len(calls) + 1, got=len(lines) - 1)
-                continue
-            for k, (row, objs) in enumerate(zip(lines[1:-1], calls)):
-                vals = []
-                for o in objs:
-                    if isinstance(o, np.ndarray) and o.ndim >= 1:
-                        forder = o.ndim == 2 and o.flags.f_contiguous and not o.flags.c_contiguous
-                        vals += list(o.ravel(order='F' if forder else 'C'))
-                    else:
-                        vals.append(o)
-                cols = row.split() if effsep.strip() == '' else row.split(effsep)
-                try:
-                    ok = int(cols[0]) == k and len(cols) == 1 + len(vals)
-                    for c, v in zip(cols[1:], vals):
-                        pv = float(c)
-                        ref = float(v.__format__(fmt))
-                        if not (pv == ref or (math.isnan(pv) and math.isnan(ref))):
-                            ok = False
-                        if math.isfinite(float(v)) and not _within_format(float(v), pv, fmt):
-                            ok = False
-                except Exception:  # noqa
-                    ok = False
-                if not ok:
-                    ctx.violation('impl-violates', 'ScalarToFile._response', 'columns parse back to the iteration number and the logged values',
-                                  cls, dict(case, row=k), expected=[k] + [float(v) for v in vals], got=row)
-                    break
+            if err is not None and not cls.startswith('malformed'):
+                ctx.violation('impl-violates', 'WriteToVTI._response', 'writes without raising', 'structured', case, got=repr(err)[:300])
+            prev, count = before, {}
+            for ei, (ev, snap) in enumerate(zip(done, snaps)):
+                if ev[0] == 'call':
+                    inst = insts[ev[1]]
+                    mod, dom = mods[inst['mi']], doms[inst['mi']]
+                    it = count.get(ev[1], 0)
+                    count[ev[1]] = it + 1
+                    vectors = {}
+                    for t, a in zip(mod['tags'], inst['calls'][it]):
+                        vectors[t] = a
+                    entries = [spec_entry(dom, a) for a in vectors.values()]
+                    changed = sorted(n_ for n_ in snap if snap[n_] != prev.get(n_))
+                    gone = sorted(set(prev) - set(snap))
+                    target = wvti_target(mod, it)
+                    c2 = dict(case, event=ei, iteration=it, file=target)
+                    if gone or [n_ for n_ in changed if n_ != target]:
+                        ctx.violation('impl-violates', 'WriteToVTI._response', 'a response writes its own file and leaves every other file alone',
+                                      cls, c2, expected=[target], got=dict(changed=changed, removed=gone))
+                    elif all(e_ == 'skip' for e_ in entries):
+                        if changed:
+                            ctx.violation('impl-violates', 'WriteToVTI._response', 'nothing to write: no file is touched', cls, c2, got=changed)
+                    elif None not in entries:
+                        if target not in snap:
+                            ctx.violation('impl-violates', 'WriteToVTI._response', 'one file per iteration (one file in overwrite mode)',
+                                          cls, c2, expected=target, got=sorted(snap))
+                        else:
+                            # whatever a file of that name held before: it is now a well-formed file of exactly these vectors
+                            for pred, exp, got in oracle_vti_file(ctx, dom, vectors, snap[target], mod.get('scale', 1.0), None,
+                                                                  mod.get('unit', [1.0] * 3), 'WriteToVTI', case):
+                                ctx.violation('impl-violates', 'WriteToVTI._response', pred, cls, c2, expected=exp, got=got)
+                prev = snap
+        else:
+            _, spec, jobs, err = job
+            case = dict(spec=spec)
+            cls = spec.get('class', 'structured')
+            if err is not None and not cls.startswith('malformed'):
+                ctx.violation('impl-violates', 'ScalarToFile._response', 'logs without raising', cls, case, got=repr(err)[:300])
+            for k, m, calls, data, fmt, sep in jobs:
+                # instance k from its first call on, nobody else touched its file: header + one row per call, whatever
+                # the file held before
+                case = dict(spec=spec, instance=k)
+                text = data.decode(errors='replace')
+                effsep = ',' if '.csv' in m['saveto'] else sep
+                lines = text.split('\n')
+                if lines[-1] != '' or len(lines) != len(calls) + 2:
+                    ctx.violation('impl-violates', 'ScalarToFile._response', 'one header line and one row per call', cls, case,
+                                  expected=len(calls) + 1, got=len(lines) - 1)
+                    continue
+                for k_, (row, objs) in enumerate(zip(lines[1:-1], calls)):
+                    vals = []
+                    for o in objs:
+                        if isinstance(o, np.ndarray) and o.ndim >= 1:
+                            forder = o.ndim == 2 and o.flags.f_contiguous and not o.flags.c_contiguous
+                            vals += list(o.ravel(order='F' if forder else 'C'))
+                        else:
+                            vals.append(o)
+                    cols = row.split() if effsep.strip() == '' else row.split(effsep)
+                    try:
+                        ok = int(cols[0]) == k_ and len(cols) == 1 + len(vals)
+                        for c, v in zip(cols[1:], vals):
+                            pv = float(c)
+                            ref = float(v.__format__(fmt))
+                            if not (pv == ref or (math.isnan(pv) and math.isnan(ref))):
+                                ok = False
+                            if math.isfinite(float(v)) and not _within_format(float(v), pv, fmt):
+                                ok = False
+                    except Exception:  # noqa
+                        ok = False
+                    if not ok:
+                        ctx.violation('impl-violates', 'ScalarToFile._response', 'columns parse back to the iteration number and the logged values',
+                                      cls, dict(case, row=k_), expected=[k_] + [float(v) for v in vals], got=row)
+                        break
 
 
 def _within_format(v, parsed, fmt):
@@ -930,10 +1424,15 @@ def run(ctx):
             specs.append(gen_vti_spec(rng, quick, doms))
         for _ in range(n_mal):
             specs.append(gen_vti_malformed(rng, doms))
-        for _ in range(n_wvti):
-            specs.append(gen_wvti_spec(rng, doms))
-        for _ in range(n_log):
-            specs.append(gen_log_spec(rng))
+        stress = wvti_stress(rng) + log_stress(rng)
+        ctx.count('stress histories (every seed)', len(stress))
+        specs += stress
+        for i in range(n_wvti):
+            sp_ = gen_wvti_spec(rng, doms)
+            specs.append(widen_wvti(rng, sp_) if i % 2 else sp_)
+        for i in range(n_log):
+            sp_ = gen_log_spec(rng)
+            specs.append(widen_log(rng, sp_) if i % 2 else sp_)
         for _ in range(n_logmal):
             specs.append(gen_log_malformed(rng))
         if getattr(ctx, 'replay', None):
